@@ -63,15 +63,46 @@ func checkC07(p *core.Program, r *core.Report) {
 	}
 	var newResult *ssa.Call
 	var getText *ssa.Call
-	for _, cs := range core.Calls(rtc, false) {
+	// the result may be built in routeToCategory itself or in a helper it hands its values to; a parameter of that
+	// helper stands for the argument it was called with
+	helperArg := map[*ssa.Parameter]ssa.Value{}
+	for _, ec := range core.EffectiveCalls(rtc, 1) {
+		cs := ec.Inner
 		if o := core.CalleeObj(cs.Common()); o != nil {
 			switch core.ObjName(o) {
-			case "flows.NewResult":
-				newResult, _ = cs.Instr.(*ssa.Call)
-			case "flows.Run.GetText":
-				getText, _ = cs.Instr.(*ssa.Call)
+			case "flows.NewResult", "flows.Run.GetText":
+				if core.ObjName(o) == "flows.NewResult" {
+					newResult, _ = cs.Instr.(*ssa.Call)
+				} else {
+					getText, _ = cs.Instr.(*ssa.Call)
+				}
+				if len(ec.Chain) == 1 {
+					if oc, ok := ec.Outer.(ssa.CallInstruction); ok {
+						for i, fp := range ec.Chain[0].Params {
+							if i < len(oc.Common().Args) {
+								helperArg[fp] = oc.Common().Args[i]
+							}
+						}
+					}
+				}
 			}
 		}
+	}
+	actual := func(v ssa.Value) ssa.Value {
+		v = core.StripConv(v)
+		if prm, ok := v.(*ssa.Parameter); ok {
+			if a, ok := helperArg[prm]; ok {
+				return core.StripConv(a)
+			}
+		}
+		return v
+	}
+	actuals := func(vs []ssa.Value) []ssa.Value {
+		out := make([]ssa.Value, len(vs))
+		for i, v := range vs {
+			out[i] = actual(v)
+		}
+		return out
 	}
 	if !r.Check(newResult != nil && getText != nil, "R1", "routeToCategory/anchors", p.Pos(rtc.Pos()), "flows.NewResult and Run.GetText calls found", "routeToCategory no longer builds a result / localizes the category name") {
 		return
@@ -83,8 +114,8 @@ func checkC07(p *core.Program, r *core.Report) {
 		}
 		exitRecv = append(exitRecv, receiversOf(ret.Results[0], "ExitUUID")...)
 	}
-	nameRecv := receiversOf(newResult.Call.Args[2], "Name")
-	uuidRecv := receiversOf(getText.Call.Args[0], "UUID")
+	nameRecv := actuals(receiversOf(newResult.Call.Args[2], "Name"))
+	uuidRecv := actuals(receiversOf(getText.Call.Args[0], "UUID"))
 	same := len(exitRecv) == 1 && len(nameRecv) == 1 && len(uuidRecv) == 1 && exitRecv[0] == nameRecv[0] && nameRecv[0] == uuidRecv[0]
 	r.Check(same, "R1", "routeToCategory/one-category-three-uses", p.Pos(newResult.Pos()), "exit, saved name and localization key come from the same category value",
 		fmt.Sprintf("the exit taken, the category name saved and the localized-name lookup do not use one and the same category (exit from %d, name from %d, key from %d values)", len(exitRecv), len(nameRecv), len(uuidRecv)))
@@ -95,13 +126,13 @@ func checkC07(p *core.Program, r *core.Report) {
 		r.Check(selOK, "R1", "routeToCategory/category-selected-by-uuid", p.Pos(rtc.Pos()), "element of recv.categories with UUID() == categoryUUID", "the category is not selected by comparing its UUID with the requested category UUID")
 	}
 	a := newResult.Call.Args
-	r.Check(core.StripConv(a[1]) == ssa.Value(matchP), "R2", "routeToCategory/value=match", p.Pos(newResult.Pos()), "Result.Value := match", "the saved result's value is not the test's match")
-	r.Check(core.StripConv(a[5]) == ssa.Value(operandP), "R2", "routeToCategory/input=operand", p.Pos(newResult.Pos()), "Result.Input := operand", "the saved result's input is not the operand")
-	r.Check(recvCanon(core.StripConv(a[0]), rtc) == "recv.resultName", "R2", "routeToCategory/name=resultName", p.Pos(newResult.Pos()), "Result.Name := recv.resultName", "the result is saved under "+recvCanon(core.StripConv(a[0]), rtc))
+	r.Check(actual(a[1]) == ssa.Value(matchP), "R2", "routeToCategory/value=match", p.Pos(newResult.Pos()), "Result.Value := match", "the saved result's value is not the test's match")
+	r.Check(actual(a[5]) == ssa.Value(operandP), "R2", "routeToCategory/input=operand", p.Pos(newResult.Pos()), "Result.Input := operand", "the saved result's input is not the operand")
+	r.Check(recvCanon(core.StripConv(a[0]), newResult.Parent()) == "recv.resultName", "R2", "routeToCategory/name=resultName", p.Pos(newResult.Pos()), "Result.Name := recv.resultName", "the result is saved under "+recvCanon(core.StripConv(a[0]), newResult.Parent()))
 	nodeOK := false
 	for v := range core.BackSlice(a[4], nil) {
 		if c, ok := v.(*ssa.Call); ok && c.Call.IsInvoke() && c.Call.Method.Name() == "NodeUUID" {
-			if prm, ok := c.Call.Value.(*ssa.Parameter); ok && prm.Name() == "step" {
+			if prm, ok := actual(c.Call.Value).(*ssa.Parameter); ok && prm.Name() == "step" && prm.Parent() == rtc {
 				nodeOK = true
 			}
 		}
